@@ -244,7 +244,10 @@ func checkC06(t *testing.T, job *Job, res *Result) {
 		}
 		for _, pre := range [][]string{{"deploy s1 h=a.example.com p=/"}, {"deploy s1 h=a.example.com p=/", "rdeploy s1 n=1", "rset s1 pct=0 allow=v"}} {
 			for _, op := range []string{"deploy s1 h=a.example.com p=/ n=2", "deploy s2 h=b.example.com p=/", "rdeploy s1 n=1", "pause s1 max=20000", "stop s1 msg=m1", "remove s1", "deploy s1 h=a.example.com,c.example.com p=/"} {
-				scs = append(scs, c06StateUnwritable(pre, op))
+				scs = append(scs, c06StateUnwritable(pre, op, "cannot-create"))
+				if _, err := os.Stat("/dev/full"); err == nil {
+					scs = append(scs, c06StateUnwritable(pre, op, "cannot-write"))
+				}
 			}
 		}
 		b := Bounds{D: 1, S: 0}
@@ -355,8 +358,10 @@ func c06Scenario(c c06cfg) *Scenario {
 // c06StateUnwritable: the state file cannot be written (its temporary name is taken by a directory) when a command
 // that would otherwise succeed runs. Whether the command then reports the problem is the implementation's choice; IF it
 // reports failure, nothing may have changed and nothing of it may keep running.
-func c06StateUnwritable(pre []string, op string) *Scenario {
-	sc := &Scenario{Name: fmt.Sprintf("C06-S state file unwritable pre=%v op=%q", pre, op), Horizon: 90 * time.Second}
+func c06StateUnwritable(pre []string, op string, mode string) *Scenario {
+	sc := &Scenario{Name: fmt.Sprintf("C06-S state file unwritable (%s) pre=%v op=%q", mode, pre, op), Horizon: 90 * time.Second}
+	var followErr error
+	var followDone, followReq bool
 	var before, after string
 	var cmdErr error
 	var named []string
@@ -380,11 +385,29 @@ func c06StateUnwritable(pre []string, op string) *Scenario {
 		}
 		before = look()
 		os.Remove(w.State + ".tmp")
-		if err := os.Mkdir(w.State+".tmp", 0o755); err != nil {
+		followErr, followDone, followReq = nil, false, false
+		var err error
+		if mode == "cannot-create" {
+			err = os.Mkdir(w.State+".tmp", 0o755) // the temporary name is taken by a directory
+		} else {
+			err = os.Symlink("/dev/full", w.State+".tmp") // it can be created, every write fails (no space left)
+		}
+		if err != nil {
 			w.Note("setup: %v", err)
 			return
 		}
 		defer os.Remove(w.State + ".tmp")
+		defer func() {
+			// the fault is gone: the proxy must still take commands and answer requests
+			os.Remove(w.State + ".tmp")
+			fh2 := &HWorld{World: w, M: newModel(), allNames: map[string]bool{}, opNo: 80}
+			fh2.apply(parseOp("deploy s9 h=z.example.com p=/"))
+			if fh2.lastCmd != nil {
+				followErr, followDone = fh2.lastCmd.Err, fh2.lastCmd.Done
+			}
+			r := w.Do(ReqSpec{Host: "z.example.com", Path: "/"})
+			followReq = r.Done && r.Status == 200
+		}()
 		o := parseOp(op)
 		fh := &HWorld{World: w, M: h.M.clone(), allNames: map[string]bool{}, opNo: 50}
 		named = fh.targetNames(o)
@@ -409,6 +432,9 @@ func c06StateUnwritable(pre []string, op string) *Scenario {
 		var vs []Violation
 		for _, n := range w.Notes {
 			vs = append(vs, Violation{"C06", "setup", n})
+		}
+		if len(vs) == 0 && (!followDone || followErr != nil || !followReq) {
+			vs = append(vs, Violation{"C06", "proxy-not-usable-after-state-file-fault " + mode, fmt.Sprintf("after %q ran while the state file could not be written (and the fault was removed) a deploy of another service: done=%v err=%v, request served=%v", op, followDone, followErr, followReq)})
 		}
 		if cmdErr == nil || len(vs) > 0 {
 			return vs
